@@ -39,6 +39,8 @@ def case(t):
     mode = t.choice(["min", "max"])
     max_t = t.weighted([(2, 4), (2, 9), (1, 6), (1, 3)])
     rf = t.choice([2, 3])
+    gp = min(t.weighted([(3, 1), (2, 2), (1, 3)]), max_t - 1)
+    early = t.chance(1, 3)
     brackets = t.weighted([(3, 1), (1, 2), (1, 3)])
     use_mra = typ == "promotion" and t.bool()
     checkpointing = not t.chance(1, 3)
@@ -51,7 +53,7 @@ def case(t):
     cs = {"x": uniform(0.0, 1.0), "y": randint(0, 3)}
     kw = dict(
         metric="loss", mode=mode, resource_attr="epoch", type=typ, searcher=searcher, search_options=opts, searcher_data=policy,
-        register_pending_myopic=myopic, grace_period=1, reduction_factor=rf, brackets=brackets, random_seed=t.int(0, 10**6),
+        register_pending_myopic=myopic, grace_period=gp, reduction_factor=rf, brackets=brackets, random_seed=t.int(0, 10**6),
     )
     if use_mra:
         cs["epochs"] = max_t
@@ -64,7 +66,7 @@ def case(t):
         return Result([f"constructor-rejected:{searcher}"], False, {"error": str(e)[:200]})
     tk = dp.make_time_keeper()
     sched.set_time_keeper(tk)
-    levels = ref_rung_levels(None, 1, rf, None, max_t)
+    levels = ref_rung_levels(None, gp, rf, None, max_t)
     rung_set = set(levels) | {max_t}
     curve = {}
 
@@ -76,12 +78,13 @@ def case(t):
 
     d = dp.ProtocolDriver(
         sched, t, result_fn, level_cap_fn=cap, n_workers=t.int(1, 3), max_trials=t.int(2, 6), max_steps=t.weighted([(3, 25), (1, 40)]),
-        checkpointing=checkpointing, allow_fail=t.chance(1, 2), fail_weight=1, time_keeper=tk,
+        checkpointing=checkpointing, allow_fail=t.chance(1, 2), fail_weight=1, time_keeper=tk, early_complete=early,
     )
     labels = {typ, searcher, policy, "myopic" if myopic else "non-myopic", mode, "checkpointing" if checkpointing else "restart"}
     delivered = {}  # trial -> {level: metric}
+    optional_final = set()
     last_level = {}
-    ctx0 = f"type={typ} searcher={searcher} searcher_data={policy} myopic={myopic} mode={mode} minus_x={minus_x} max_t={max_t} rf={rf} brackets={brackets} mra={use_mra} ckpt={checkpointing}"
+    ctx0 = f"grace_period={gp} early_complete={early} type={typ} searcher={searcher} searcher_data={policy} myopic={myopic} mode={mode} minus_x={minus_x} max_t={max_t} rf={rf} brackets={brackets} mra={use_mra} ckpt={checkpointing}"
 
     def mapped(v):
         if mode == "min":
@@ -100,6 +103,10 @@ def case(t):
             n_delivered += 1
             delivered.setdefault(ev.trial_id, {})[ev.level] = ev.result["loss"]
             last_level[ev.trial_id] = ev.level
+            if ev.get("completed") and ev.level < min(levels + [max_t]):
+                labels.add("completed-before-first-rung")
+            if ev.get("completed") and ev.level < cap(d.trials[ev.trial_id].config):
+                optional_final.add((ev.trial_id, ev.level))
         st = sched.searcher.state_transformer.state
         tail = [(x.op, x.get("kind"), x.get("trial_id"), x.get("level"), x.get("decision")) for x in d.trace[-8:]]
         # ---- observations
@@ -130,7 +137,9 @@ def case(t):
                     want.add((tid, r))
                 elif policy == "rungs_and_last" and r == last_level.get(tid) and r == max(lv):
                     want.add((tid, r))
-        if seen_pairs != want:
+        # the final result of a script that ended on its own below the maximum resource is handed to the searcher by
+        # on_trial_complete whatever the policy; the property does not speak about such runs: either way is accepted
+        if (seen_pairs - optional_final) != (want - optional_final):
             extra = sorted(seen_pairs - want)
             missing = sorted(want - seen_pairs)
             kind = "observations-missing" if missing and not extra else "observations-extra" if extra and not missing else "observations-differ"
@@ -184,6 +193,6 @@ SUBCHECKS = {
         "quick": 4000,
         "thorough": 80000,
         "min_per_shard": 20,
-        "required": ["data-rows-checked", "rungs", "all", "rungs_and_last", "myopic", "restart-without-checkpointing", "failure", "pause+resume", "pending-seen", "hypertune", "bayesopt"],
+        "required": ["completed-before-first-rung", "data-rows-checked", "rungs", "all", "rungs_and_last", "myopic", "restart-without-checkpointing", "failure", "pause+resume", "pending-seen", "hypertune", "bayesopt"],
     },
 }
